@@ -112,7 +112,8 @@ def _chooser(case):
   def choose(s, runnable, cur):
     if mode == 'sigint':
       # deliver the k-th SIGINT at its step: the handler runs on the main thread
-      while state['fired'] < len(ks) and s.step >= ks[state['fired']]:
+      base = getattr(s, 'base_step', 0)
+      while base is not None and state['fired'] < len(ks) and s.step - base >= ks[state['fired']]:
         main = s.threads[0]
         if main.pending_call is None and not main.finished:
           from openhtf.core import test_descriptor
@@ -320,7 +321,7 @@ def run_real(case):
     def aborter(env):
       s = env['sched']
       test = env['test']
-      s.block(lambda: (s.step >= k and getattr(test, '_executor', None) is not None) or
+      s.block(lambda: (s.step - (getattr(s, 'base_step', 0) or 0) >= k and getattr(test, '_executor', None) is not None) or
               ('execute-returned',) in env['log'], None, 'abort-trigger')
       if ('execute-returned',) in env['log']:
         return
@@ -344,8 +345,13 @@ def run_real(case):
         if s is not None:
           s.events.append((s.me().name if s.me() else '?', 'h', None, x))
     ctx.events = L()
-  out = sched_exec.run_case(prog, choose=_chooser(case), aux=aux, prepare=prepare, max_steps=40000)
+  out = sched_exec.run_case(prog, choose=_chooser(case), aux=aux, prepare=prepare, max_steps=40000,
+                            pre_runs=1 if case.get('rerun') else 0)
   s = out['sched']
+  if case.get('rerun'):
+    # only the run under test is judged
+    cut = max([i for i, e in enumerate(s.events) if e[1] == 'run-under-test-starts'] or [-1])
+    s.events = s.events[cut + 1:]
   kinds = _kinds(prog['nodes'])
   if prog.get('start') is not None:
     kinds[prog['start']['id']] = 'x'
@@ -406,7 +412,7 @@ def run_real(case):
       rec_facts.append('X:record-not-final')
   elif status == 'returned':
     rec_facts.append('X:no-record-handed-to-callbacks')
-  ex = _TRACED['executors'][0] if _TRACED['executors'] else None
+  ex = (_TRACED['executors'][-1] if case.get('rerun') else _TRACED['executors'][0]) if _TRACED['executors'] else None
   sync = _sync_tokens(s.events, ex, None)
   toks = [t for _, t in sorted(toks + sync, key=lambda x: x[0])]
   return {'toks': toks, 'outcome': outcome, 'ret': ret, 'status': status, 'need': need, 'facts': rec_facts,
@@ -422,7 +428,8 @@ def encode(case, o):
 
 
 def classify(case, o):
-  return '%s/%s/%d' % (case['prog'] if isinstance(case['prog'], str) else 'gen', case.get('mode', 'thread'), len(case.get('ks') or []))
+  return '%s/%s/%d%s' % (case['prog'] if isinstance(case['prog'], str) else 'gen', case.get('mode', 'thread'), len(case.get('ks') or []),
+                         '/second-run' if case.get('rerun') else '')
 
 
 def nontrivial_key(case, o):
@@ -455,6 +462,11 @@ def gen_cases(rng, tier):
         k1 = r.randrange(0, n)
         k2 = k1 + r.choice([0, 1, 2, 3, 5, 8, 13, 30, 60, 100])
         cases.append({'prog': name, 'ks': [k1, k2], 'mode': mode})
+  # the same Test object executed once undisturbed, then again with the SIGINT (what a station loop does)
+  for name in ('line', 'group', 'nested', 'subtest', 'plugs'):
+    n = _length(name, 'sigint')
+    for k in range(0, n + 3, 9 if quick else 2):
+      cases.append({'prog': name, 'ks': [k], 'mode': 'sigint', 'rerun': True})
   for i in range(150 if quick else 3000):
     r = rng.derive('r%d' % i)
     name = r.choice(sorted(PROGRAMS))
